@@ -26,6 +26,19 @@
 (* step perturbs relatively (i.x_c.h, i.h when x_c = 0).  Known defects are    *)
 (* NOT modelled (known_findings.d/C16.json): the flip/drop rule below is the   *)
 (* one that keeps every point inside the bounds.                               *)
+(* Steps are signed (a negative step is a backward / mirrored difference: the  *)
+(* quotient is divided by the SIGNED distance of the two points) and, for      *)
+(* complex step, may be handed over as h or as the imaginary number h.i (field *)
+(* sf: the input form does not change the meaning).                            *)
+(* Discipline level: the linearisation point X is the discipline's CURRENT     *)
+(* input data; its default inputs (field dk: the same point, another point,    *)
+(* arrays of other sizes) are not part of the meaning.  The mode in force is   *)
+(* the LAST one set (fields prev/phow/how: a two-step history of mode          *)
+(* settings).  check_jacobian is a specified function of the analytic Jacobian *)
+(* (field ek: exact, the approximation itself, wrong in a stored entry, wrong  *)
+(* by a structurally missing entry, wrong by an extra entry), whatever its     *)
+(* representation (field rep) and the entry point (field entry).               *)
+(* Histories on ONE approximator object: module DerivApproxHist.               *)
 EXTENDS Integers, Sequences, FiniteSets, TLC
 
 CONSTANTS K,      \* lattice exponent
@@ -120,12 +133,15 @@ NOut(I) == Len(Funs[I.fid].f)
 HasDS(I) == I.ds # "none"
 
 \* offsets of the two real evaluation points of component c for step h
+\* (h may be negative: the centred half-step that would leave the box is dropped,
+\* whichever of the two it is)
+Leaves(I, c, off) == HasDS(I) /\ (I.X[c] + off > I.ub[c] \/ I.X[c] + off < I.lb[c])
 PlusOff(I, c, h) ==
   IF I.meth = "fd" THEN (IF HasDS(I) /\ I.X[c] + h > I.ub[c] THEN -h ELSE h)
-  ELSE (IF HasDS(I) /\ I.X[c] + h > I.ub[c] THEN 0 ELSE h)
+  ELSE (IF Leaves(I, c, h) THEN 0 ELSE h)
 MinusOff(I, c, h) ==
   IF I.meth = "fd" THEN 0
-  ELSE (IF HasDS(I) /\ I.X[c] - h < I.lb[c] THEN 0 ELSE -h)
+  ELSE (IF Leaves(I, c, -h) THEN 0 ELSE -h)
 \* complex step: relative perturbation i.x_c.h (i.h when x_c = 0)
 ImagOff(I, c, h) == IF I.X[c] = 0 THEN h ELSE ExactDiv(I.X[c] * h, S)
 
@@ -173,36 +189,47 @@ Prefix(q, n) == [k \in 1..n |-> q[k]]
 ScalarSteps == IF Rich THEN {S \div 8, S \div 16, S \div 32, S \div 64} ELSE {S \div 8, S \div 64}
 VecTables == IF Rich THEN {<<S \div 16, S \div 8, S \div 64>>, <<S \div 64, S \div 32, S \div 8>>}
              ELSE {<<S \div 16, S \div 8, S \div 64>>}
-StepChoices == {[sk |-> "scalar", hc |-> <<h, h, h>>] : h \in ScalarSteps}
-               \cup {[sk |-> "vector", hc |-> t] : t \in VecTables}
+\* signed steps: a negative scalar step (functions of <= 2 variables in the quick
+\* enumeration), a vector of mixed signs (thorough)
+NegSteps(n) == IF Rich \/ n <= 2 THEN {-(S \div 8)} ELSE {}
+MixedTables == IF Rich THEN {<<-(S \div 16), S \div 8, -(S \div 64)>>} ELSE {}
+StepChoices(n) == {[sk |-> "scalar", hc |-> <<h, h, h>>] : h \in ScalarSteps \cup NegSteps(n)}
+                  \cup {[sk |-> "vector", hc |-> t] : t \in VecTables \cup MixedTables}
 
 \* candidate coordinates of a component: on the upper bound, within one step of
 \* it, exactly one step below, zero, on the lower bound, interior points
+\* (|h| for a negative step; with a negative step the points from which the step
+\* towards the LOWER bound would leave the box are not enumerated: the property
+\* speaks of upper bounds only)
 Cand(me, n, lb, ub, h) ==
-  {v \in (IF me = "cs"
-          THEN {ub, 0, lb, -(S \div 2)} \cup (IF Rich THEN {S \div 2, -S} ELSE {})
-          ELSE {ub, ub - h \div 2, 0, lb}
-               \cup (IF Rich \/ n <= 2 THEN {ub - h} ELSE {})
-               \cup (IF Rich THEN {ub - 2 * h, lb + h} ELSE {})) :
-     lb <= v /\ v <= ub}
+  LET ah == Abs(h)
+  IN {v \in (IF me = "cs"
+             THEN {ub, 0, lb, -(S \div 2)} \cup (IF Rich THEN {S \div 2, -S} ELSE {})
+             ELSE {ub, ub - ah \div 2, 0, lb}
+                  \cup (IF Rich \/ n <= 2 THEN {ub - ah} ELSE {})
+                  \cup (IF Rich THEN {ub - 2 * ah, lb + ah} ELSE {})) :
+        lb <= v /\ v <= ub /\ (h < 0 /\ me # "cs" => v + h >= lb)}
 PointSet(me, n, lb, ub, hc) ==
   {x \in [1..n -> UNION {Cand(me, n, lb[c], ub[c], hc[c]) : c \in 1..n}] :
      \A c \in 1..n : x[c] \in Cand(me, n, lb[c], ub[c], hc[c])}
 
-DsOf(me) == IF me = "cs" THEN {"none", "phys"} ELSE {"none", "phys", "norm"}
+DsOf(me) == {"none", "phys", "norm"}
 ApproxFuns == IF Rich THEN {1, 2, 3, 4, 5} ELSE {1, 2, 3, 5}
 
 InitApprox ==
   \E fid \in ApproxFuns, me \in {"fd", "cd", "cs"} :
-  \E d \in DsOf(me), st \in StepChoices :
+  \E d \in DsOf(me), st \in StepChoices(Funs[fid].n) :
     LET n  == Funs[fid].n
         lb == IF d = "norm" THEN [c \in 1..n |-> 0] ELSE Prefix(LBT, n)
         ub == IF d = "norm" THEN [c \in 1..n |-> S] ELSE Prefix(UBT, n)
     IN \E ix \in (IF Rich /\ d = "none" THEN InjSeqs(n) ELSE AscSeqs(n)) :
        \E dflt \in (IF Len(ix) = n /\ ix = [k \in 1..n |-> k] THEN {TRUE, FALSE} ELSE {FALSE}) :
        \E x \in PointSet(me, n, lb, ub, st.hc) :
+       \* the form in which a complex step is handed over: h, or the imaginary number h.i
+       \E sf \in (IF me = "cs" /\ st.sk = "scalar" /\ st.hc[1] = S \div 64 /\ (Rich \/ n <= 2)
+                  THEN {"real", "imag"} ELSE {"real"}) :
          inst = [lvl |-> "approx", fid |-> fid, meth |-> me, ds |-> d, lb |-> lb, ub |-> ub,
-                 idx |-> ix, dflt |-> dflt, sk |-> st.sk,
+                 idx |-> ix, dflt |-> dflt, sk |-> st.sk, sf |-> sf,
                  hs |-> [j \in 1..Len(ix) |-> st.hc[ix[j]]], X |-> x]
 
 -------------------------------------------------------------------------------
@@ -238,29 +265,6 @@ SelPos(lay, req, s, k) ==
   IF k = 0 THEN <<>>
   ELSE LET before == Len(Concat(lay, req, k - 1))
        IN SelPos(lay, req, s, k - 1) \o [j \in 1..Len(s[k]) |-> before + s[k][j]]
-
-InitDisc ==
-  \E fid \in DiscFuns, me \in {"fd", "cd", "cs"}, il \in InLayouts, op \in {"approx", "linearize", "check"} :
-  \E st \in DiscSteps(me), x \in DiscPoints :
-  \E ir \in Requests(il), orq \in Requests(OutLayout(fid)) :
-    LET ol   == OutLayout(fid)
-        cols == Flat(il, ir)
-        nc   == Len(cols)
-    IN \E xi \in (IF op = "approx" THEN AscSeqs(nc) ELSE {[k \in 1..nc |-> k]}) :
-       \E dflt \in (IF op = "approx" /\ Len(xi) = nc THEN {TRUE, FALSE} ELSE {Len(xi) = nc}) :
-       \E si \in (IF op = "check" THEN Selections(il, ir) ELSE {[k \in 1..Len(ir) |-> [j \in 1..Len(il[ir[k]].cs) |-> j]]}) :
-       \E so \in (IF op = "check" THEN Selections(ol, orq) ELSE {[k \in 1..Len(orq) |-> [j \in 1..Len(ol[orq[k]].cs) |-> j]]}) :
-       \E th \in (IF op = "check" THEN {5, 12} ELSE {0}) :
-         /\ (op = "linearize" => st.sk = "scalar")
-         /\ (op = "check" => st.sk = "scalar")
-         /\ inst = [lvl |-> "disc", op |-> op, fid |-> fid, meth |-> me, ds |-> "none",
-                    lb |-> LBT, ub |-> UBT, il |-> il, ol |-> ol, ir |-> ir, orq |-> orq,
-                    xi |-> (IF op = "check" THEN SelPos(il, ir, si, Len(ir)) ELSE xi),
-                    dflt |-> dflt, si |-> si, so |-> so, th |-> th,
-                    sk |-> st.sk, hc |-> st.hc, X |-> x]
-
-Init == /\ (IF Level = "approx" THEN InitApprox ELSE InitDisc)
-        /\ phase = "new" /\ jac = <<>> /\ pts = {} /\ out = <<>> /\ aux = <<>>
 
 -------------------------------------------------------------------------------
 (* Compute: approximator level                                                *)
@@ -307,6 +311,126 @@ PtsDisc(I) ==
   IN (IF I.meth = "fd" THEN {RealPt(I.X)} ELSE {})
      \cup UNION {PointsOf(I, cols[I.xi[j]], I.hc[cols[I.xi[j]]]) : j \in 1..Len(I.xi)}
 
+
+\* symbolic coefficients of the order term per entry (the harness evaluates the order
+\* bound at the library's own default step when a mode is set without a step)
+CoefNested(I) ==
+  LET rows == Flat(I.ol, I.orq)
+      cols == Flat(I.il, I.ir)
+      e(a, p) == [d2h |-> D2h(Funs[I.fid].f[rows[a]], I.X, cols[p]),
+                  d3  |-> D3(Funs[I.fid].f[rows[a]], I.X, cols[p]),
+                  xc  |-> I.X[cols[p]]]
+  IN Nested(I, e)
+
+(* The analytic Jacobian handed to check_jacobian, by kind of error.  Positions *)
+(* are <<output position, input position, row, column>> of the requested blocks.*)
+Positions(I) ==
+  {p \in (1..Len(I.orq)) \X (1..Len(I.ir)) \X (1..3) \X (1..3) :
+     p[3] <= Len(I.ol[I.orq[p[1]]].cs) /\ p[4] <= Len(I.il[I.ir[p[2]]].cs)}
+PosLess(p, q) ==
+  \E k \in 1..4 : p[k] < q[k] /\ \A j \in 1..(k - 1) : p[j] = q[j]
+ErrCands(I, ex) ==
+  {p \in Positions(I) :
+     IF I.ek = "extra" THEN ex[p[1]][p[2]][p[3]][p[4]] = 0 ELSE ex[p[1]][p[2]][p[3]][p[4]] # 0}
+ErrPos(I, ex) ==
+  LET Ps == ErrCands(I, ex)
+  IN IF I.ep = "first" THEN CHOOSE p \in Ps : \A q \in Ps : p = q \/ PosLess(p, q)
+     ELSE CHOOSE p \in Ps : \A q \in Ps : p = q \/ PosLess(q, p)
+ErrSelected(I, p) == Member(I.so[p[1]], p[3]) /\ Member(I.si[p[2]], p[4])
+AnalyticOf(I, ex, ap) ==
+  IF I.ek = "exact" THEN ex
+  ELSE IF I.ek = "self" THEN ap
+  ELSE LET p == ErrPos(I, ex)
+           v == IF I.ek = "stored" THEN ex[p[1]][p[2]][p[3]][p[4]] + S * S   \* off by 1
+                ELSE IF I.ek = "missing" THEN 0                              \* not stored
+                ELSE S * S                                                   \* stored, should be 0
+       IN [ex EXCEPT ![p[1]][p[2]][p[3]][p[4]] = v]
+-------------------------------------------------------------------------------
+(* Discipline level: the instances.  A variant record carries the dimensions   *)
+(* that do not belong to the meaning: the default inputs (dk), the two-step    *)
+(* history of mode settings (prev set by phow, then meth set by how: "attr" =  *)
+(* discipline.linearization_mode = m, the library's default step; "method" =   *)
+(* set_jacobian_approximation(m, step)), the form of a complex step (sf), and  *)
+(* for check_jacobian the kind of analytic Jacobian (ek), the position of its  *)
+(* error (ep), its representation (rep) and the entry point (entry: "disc" =   *)
+(* Discipline.check_jacobian, "approx" = DisciplineJacApprox.check_jacobian).  *)
+Base == [dk |-> "same", rep |-> "dense", ek |-> "exact", ep |-> "first", entry |-> "disc",
+         prev |-> "none", phow |-> "none", how |-> "method", sf |-> "real"]
+FullSel(lay, req) == [k \in 1..Len(req) |-> [j \in 1..Len(lay[req[k]].cs) |-> j]]
+LastSel(lay, req) == [k \in 1..Len(req) |-> <<Len(lay[req[k]].cs)>>]
+FirstSel(lay, req) == [k \in 1..Len(req) |-> <<1>>]
+DiscPoint1 == <<S, S \div 2, -S>>
+Meths == {"fd", "cd", "cs"}
+
+Variants(op, me, il, ol, st, x, ir, orq, dflt, si, so, th) ==
+  LET redreq  == ir \in {<<1, 2>>, <<2, 1>>} /\ orq \in {<<1, 2>>, <<2>>}
+      fullsel == si = FullSel(il, ir) /\ so = FullSel(ol, orq)
+      redsel  == si \in {FullSel(il, ir), LastSel(il, ir)} /\ so \in {FullSel(ol, orq), FirstSel(ol, orq)}
+      dflreq  == ir \in {<<1>>, <<2, 1>>} /\ orq \in {<<1, 2>>, <<2>>}
+      step1   == st.sk = "scalar" /\ st.hc[1] = S \div 16
+  IN IF op = "approx" THEN
+       {Base}
+       \cup {[Base EXCEPT !.dk = k] : k \in (IF dflt THEN {"vals", "sizes"} ELSE {})}
+       \cup (IF me = "cs" /\ dflt THEN {[Base EXCEPT !.sf = "imag"]} ELSE {})
+     ELSE IF op = "linearize" THEN
+       {Base}
+       \cup {[Base EXCEPT !.dk = k] : k \in {"vals", "sizes"}}
+       \cup (IF step1 /\ ir = <<1, 2>> /\ orq \in {<<1, 2>>, <<2>>}
+             THEN {[Base EXCEPT !.how = "attr"]}
+                  \cup {[Base EXCEPT !.prev = p, !.phow = ph, !.how = hw] :
+                          p \in Meths \ {me}, ph \in {"attr", "method"}, hw \in {"attr", "method"}}
+             ELSE {})
+     ELSE
+       {[Base EXCEPT !.ek = e] : e \in {"exact", "self"}}
+       \cup (IF th = 5 /\ x = DiscPoint1 /\ dflreq /\ redsel
+             THEN {[Base EXCEPT !.dk = k, !.entry = en] : k \in {"vals", "sizes"}, en \in {"disc", "approx"}}
+             ELSE {})
+       \cup (IF th = 5 /\ x = DiscPoint1 /\ redreq /\ redsel
+             THEN {[Base EXCEPT !.rep = r, !.ek = e, !.ep = q, !.entry = en] :
+                     r \in {"dense", "csr", "csc"}, e \in {"exact", "stored", "missing", "extra"},
+                     q \in (IF Rich THEN {"first", "last"} ELSE {"first"}), en \in {"disc", "approx"}}
+                  \* a COO matrix cannot be subscripted: without `indices` only
+                  \cup (IF fullsel
+                        THEN {[Base EXCEPT !.rep = "coo", !.ek = e, !.entry = en] :
+                                e \in {"exact", "stored", "missing", "extra"}, en \in {"disc", "approx"}}
+                        ELSE {})
+             ELSE {})
+
+\* the default inputs of the discipline, per input variable (scale S)
+DefaultsOf(dk, il, x) ==
+  [k \in 1..Len(il) |->
+     IF dk = "same" THEN [j \in 1..Len(il[k].cs) |-> x[il[k].cs[j]]]
+     ELSE IF dk = "vals" THEN [j \in 1..Len(il[k].cs) |-> x[il[k].cs[j]] + S]
+     ELSE [j \in 1..(Len(il[k].cs) + 1) |-> S * j]]
+
+InitDisc ==
+  \E fid \in DiscFuns, me \in Meths, il \in InLayouts, op \in {"approx", "linearize", "check"} :
+  \E st \in DiscSteps(me), x \in DiscPoints :
+  \E ir \in Requests(il), orq \in Requests(OutLayout(fid)) :
+    LET ol   == OutLayout(fid)
+        cols == Flat(il, ir)
+        nc   == Len(cols)
+    IN \E xi \in (IF op = "approx" THEN AscSeqs(nc) ELSE {[k \in 1..nc |-> k]}) :
+       \E dflt \in (IF op = "approx" /\ Len(xi) = nc THEN {TRUE, FALSE} ELSE {Len(xi) = nc}) :
+       \E si \in (IF op = "check" THEN Selections(il, ir) ELSE {FullSel(il, ir)}) :
+       \E so \in (IF op = "check" THEN Selections(ol, orq) ELSE {FullSel(ol, orq)}) :
+       \E th \in (IF op = "check" THEN {5, 12} ELSE {0}) :
+       \E v \in Variants(op, me, il, ol, st, x, ir, orq, dflt, si, so, th) :
+         LET I == [lvl |-> "disc", op |-> op, fid |-> fid, meth |-> me, ds |-> "none",
+                   lb |-> LBT, ub |-> UBT, il |-> il, ol |-> ol, ir |-> ir, orq |-> orq,
+                   xi |-> (IF op = "check" THEN SelPos(il, ir, si, Len(ir)) ELSE xi),
+                   dflt |-> dflt, si |-> si, so |-> so, th |-> th,
+                   sk |-> st.sk, hc |-> st.hc, X |-> x,
+                   dk |-> v.dk, dfl |-> DefaultsOf(v.dk, il, x), rep |-> v.rep, ek |-> v.ek, ep |-> v.ep,
+                   entry |-> v.entry, prev |-> v.prev, phow |-> v.phow, how |-> v.how, sf |-> v.sf]
+         IN /\ (op = "linearize" => st.sk = "scalar")
+            /\ (op = "check" => st.sk = "scalar")
+            /\ (v.ek \in {"stored", "missing", "extra"} => ErrCands(I, ExactNested(I)) # {})
+            /\ inst = I
+
+Init == /\ (IF Level = "approx" THEN InitApprox ELSE InitDisc)
+        /\ phase = "new" /\ jac = <<>> /\ pts = {} /\ out = <<>> /\ aux = <<>>
+
 Compute ==
   /\ phase = "new"
   /\ phase' = "done"
@@ -322,8 +446,10 @@ Compute ==
           /\ pts' = PtsDisc(inst)
           /\ LET ap == ApproxNested(inst)
                  ex == ExactNested(inst)
-             IN out' = [approx |-> ap, exact |-> ex,
-                        vexact |-> Verdict(inst, ex, ap), vself |-> Verdict(inst, ap, ap)]
+                 an == IF inst.op = "check" THEN AnalyticOf(inst, ex, ap) ELSE <<>>
+             IN out' = [approx |-> ap, exact |-> ex, analytic |-> an,
+                        coef |-> (IF inst.how = "attr" THEN CoefNested(inst) ELSE <<>>),
+                        verdict |-> (IF inst.op = "check" THEN Verdict(inst, an, ap) ELSE TRUE)]
           /\ (Emit => PrintT(<<"DISC", inst, out', pts'>>))
 
 Next == Compute
@@ -353,11 +479,14 @@ EntryOK(I, c, h, q, a) ==
   /\ q * a.den = a.num
   /\ q = a.d1 + OrderTermA(I, c, h, a)
   /\ (I.meth = "cs" /\ I.X[c] # 0 => Divides(S, I.X[c] * h))
+\* (aux is left empty by the runs that dump the graph of DerivApproxHist: recomputed then)
+AuxNow == IF aux = <<>> THEN AuxApprox(inst) ELSE aux
 ErrorEqualsOrderTerm ==
   Done =>
     IF inst.lvl = "approx"
-    THEN \A r \in 1..NOut(inst), j \in 1..Len(inst.idx) :
-           EntryOK(inst, inst.idx[j], inst.hs[j], jac[r][j], aux[r][j])
+    THEN LET A == AuxNow
+         IN \A r \in 1..NOut(inst), j \in 1..Len(inst.idx) :
+              EntryOK(inst, inst.idx[j], inst.hs[j], jac[r][j], A[r][j])
     ELSE \A r \in 1..NOut(inst), c \in 1..NIn(inst) :
            EntryOK(inst, c, inst.hc[c], Quot(inst, r, c, inst.hc[c]), AuxEntry(inst, r, c, inst.hc[c]))
 
@@ -365,15 +494,16 @@ ErrorEqualsOrderTerm ==
 \* centred next to a bound), <= C2.h^2 (centred, complex step with d = x.h)
 OrderBound ==
   Done /\ inst.lvl = "approx" =>
+    LET A == AuxNow IN
     \A r \in 1..NOut(inst), j \in 1..Len(inst.idx) :
       LET c == inst.idx[j]
           h == inst.hs[j]
-          a == aux[r][j]
+          a == A[r][j]
           err == Abs(jac[r][j] - a.d1)
-          d == IF inst.meth = "cs" THEN Abs(ImagOff(inst, c, h)) ELSE h
+          d == IF inst.meth = "cs" THEN Abs(ImagOff(inst, c, h)) ELSE Abs(h)
           two == inst.meth = "cs" \/ (inst.meth = "cd" /\ a.den = 2 * h)
       IN IF two THEN err <= Abs(a.d3) * d * d
-         ELSE err <= Abs(a.d2h) * h + Abs(a.d3) * h * h
+         ELSE err <= Abs(a.d2h) * d + Abs(a.d3) * d * d
 
 \* discipline level: columns that are not requested are zero, the nested shapes
 \* follow the variable sizes, the self-check succeeds
@@ -386,5 +516,15 @@ DiscShape ==
               /\ Len(out.approx[ko][ki]) = Len(inst.ol[inst.orq[ko]].cs)
               /\ \A a \in 1..Len(out.approx[ko][ki]) :
                    Len(out.approx[ko][ki][a]) = Len(inst.il[inst.ir[ki]].cs)
-    /\ out.vself
+    /\ (inst.op = "check" /\ inst.ek = "self" => out.verdict)
+
+\* the verdict of check_jacobian is a function of the WHOLE analytic Jacobian on the
+\* selected entries: an analytic Jacobian that is wrong (in a stored entry, by a missing
+\* entry, by an extra entry) at a selected position is refused; an error at a position
+\* that is not selected does not change the verdict
+CheckVerdictMeaning ==
+  Done /\ inst.lvl = "disc" /\ inst.op = "check" /\ inst.ek \in {"stored", "missing", "extra"} =>
+    LET p == ErrPos(inst, out.exact)
+    IN IF ErrSelected(inst, p) THEN ~out.verdict
+       ELSE out.verdict = Verdict(inst, out.exact, out.approx)
 ===============================================================================
